@@ -14,6 +14,11 @@ reported).  The worker returns
       (unset fields — every message once with ALL defaulted fields unset, records with unset fields —, enum members as values)
       and what decoding those bytes gave.  Enum generators include character enums whose member NAMES overlap their VALUES
       (`gen_overlap_members`, `gen_enum_default_spec`; model side: Props/C15Enum.lean, Witness/C15Enum.lean).
+      Def-references: the new name of a renaming reference is drawn from fresh names AND from the names that already mean
+      something in the file — ANOTHER reusable definition of different meaning, a record, an enum — and the definition of
+      that name is referenced before and after the renaming element, in the same and in other records and messages
+      (`gen_def_shadow_spec`, `gen_field`; distribution: `def_ref_stats`; the oracle names the reference whose class field
+      has not the type of its definition: `def_ref_notes`; model side: Props/C15Defs.lean, Witness/C15Defs.lean).
 
  * correspondence (Model/GenSoupApp.lean through drv_C15): (a) = `gen`, (b) = `evalModule (gen spec)` including the phase and
    class of a failure — on well-formed specs, on the known-defect shapes and on a stream of malformed specs;
